@@ -95,7 +95,7 @@ def h_partition_at(P):
 def jobs(tier):
     # the PartitionedArray constructor rejects an empty partition list: P >= 1 is the class invariant
     from . import mvirt
-    return [(h_partition_at, (P,), 900) for P in range(1, 5 if tier == 'quick' else 7)] + range_jobs(tier) + mvirt.jobs(tier)
+    return [(h_partition_at, (P,), 900) for P in range(1, 5 if tier == 'quick' else 7)] + range_jobs(tier) + mvirt.jobs(tier) + repartition_jobs(tier)
 
 
 def main(report, tier):
@@ -312,7 +312,10 @@ RANGE_DRIVER = r'''
 #include "awkward/Slice.h"
 using namespace awkward;
 struct Dbl { void** vt; long len; long g0; long gs; };
-static void* VT[%(nslots)d];
+#include <typeinfo>
+struct DblT : public Content { DblT(): Content(Identities::none(), util::Parameters()) { } };     // never instantiated: only its type_info is used (dynamic_cast on a test double)
+static void* VTFULL[%(nslots)d + 2];
+static void** const VT = VTFULL + 2;
 static void nodel(Content*) { }
 static ContentPtr mk(long len, long g0, long gs) { Dbl* d = new Dbl; d->vt = VT; d->len = len; d->g0 = g0; d->gs = gs; return ContentPtr((Content*)d, nodel); }
 extern "C" void d_trap() { printf("{\"outcome\": \"unexpected-virtual-call\"}\n"); fflush(stdout); _Exit(3); }
@@ -335,6 +338,10 @@ extern "C" void d_getitem(ContentPtr* sret, Dbl* self, const Slice* sl) {
   if (s < 0 && a > b) cnt = (a - b - 1) / (-s) + 1;
   new (sret) ContentPtr(mk(cnt, self->g0 + a * self->gs, self->gs * s)); }
 extern "C" void d_nothing(ContentPtr* sret, Dbl* self) { new (sret) ContentPtr(mk(0, 0, 1)); }
+extern "C" bool d_mergeable(Dbl* self, const ContentPtr* other, bool mergebool) { return true; }
+extern "C" void d_mergemany(ContentPtr* sret, Dbl* self, const ContentPtrVec* others) {
+  long len = self->len; for (auto& o : *others) len += ((Dbl*)o.get())->len;
+  new (sret) ContentPtr(mk(len, self->g0, 1)); }
 static long at_part = -1, at_index = -1;
 extern "C" void d_at_nowrap(ContentPtr* sret, Dbl* self, long at) { at_part = self->g0; at_index = at; new (sret) ContentPtr(nullptr); }
 namespace awkward { namespace util {
@@ -342,16 +349,24 @@ namespace awkward { namespace util {
     if (err.str != nullptr) throw std::invalid_argument(err.str);
   } } }
 int main(int argc, char** argv) {
+  VTFULL[0] = nullptr; VTFULL[1] = (void*)&typeid(DblT);
   for (int i = 0; i < %(nslots)d; i++) VT[i] = (void*)d_trap;
   VT[%(k_length)d] = (void*)d_length; VT[%(k_rnw)d] = (void*)d_rnw; VT[%(k_get)d] = (void*)d_getitem; VT[%(k_nothing)d] = (void*)d_nothing;
-  VT[%(k_at)d] = (void*)d_at_nowrap;
+  VT[%(k_at)d] = (void*)d_at_nowrap; VT[%(k_mergeable)d] = (void*)d_mergeable; VT[%(k_mergemany)d] = (void*)d_mergemany;
   int mode = atoi(argv[1]); int P = atoi(argv[2]);
   std::vector<int64_t> stops; ContentPtrVec parts; long tot = 0;
   for (int i = 0; i < P; i++) { long L = atol(argv[3 + i]); parts.push_back(mk(L, tot, 1)); tot += L; stops.push_back(tot); }
   IrregularlyPartitionedArray arr(parts, stops);
   long a = atol(argv[3 + P]), b = atol(argv[4 + P]), c = atol(argv[5 + P]);
   try {
-    if (mode == 1) {
+    if (mode == 3) {
+      std::vector<int64_t> ns; for (int i = 6 + P; i < argc; i++) ns.push_back(atoll(argv[i]));
+      PartitionedArrayPtr out = arr.repartition(ns);
+      IrregularlyPartitionedArray* irr = (IrregularlyPartitionedArray*)out.get();
+      printf("{\"outcome\": \"ok\", \"parts\": [");
+      for (int64_t p = 0; p < irr->numpartitions(); p++) { Dbl* d = (Dbl*)irr->partition(p).get(); printf("%%s[%%ld, %%ld]", p ? ", " : "", d->g0, d->len); }
+      printf("]}\n");
+    } else if (mode == 1) {
       arr.getitem_at(a);
       printf("{\"outcome\": \"ok\", \"part_start\": %%ld, \"index\": %%ld}\n", at_part, at_index);
     } else {
@@ -376,12 +391,16 @@ int main(int argc, char** argv) {
 '''
 
 
-def native_partitioned(mode, lens, a, b, c):
+def native_partitioned(mode, lens, a, b, c, extra=()):
     import json
     K, nslots = content_slots()
-    drv = RANGE_DRIVER % dict(nslots=nslots, knone=KNONE, k_length=K['length'], k_rnw=K['rnw'], k_get=K['get'], k_nothing=K['nothing'], k_at=K['at_nowrap'])
-    exe = build.compile_objs_driver(drv, [IPA, PA, SLC, KU, KD])
-    r = subprocess.run([exe, str(mode), str(len(lens))] + [str(x) for x in lens] + [str(a), str(b), str(c)], capture_output=True, text=True, timeout=30,
+    from .cpp01 import vtable_slots
+    from .mharness import module_of
+    slots_, _ = vtable_slots(module_of(EA), 'N7awkward10EmptyArrayE')
+    K = dict(K, mergeable=[k for s_, k in slots_.items() if '9mergeableERKSt10shared_ptr' in s_][0], mergemany=[k for s_, k in slots_.items() if '9mergemanyERKSt6vector' in s_][0])
+    drv = RANGE_DRIVER % dict(k_mergeable=K['mergeable'], k_mergemany=K['mergemany'], nslots=nslots, knone=KNONE, k_length=K['length'], k_rnw=K['rnw'], k_get=K['get'], k_nothing=K['nothing'], k_at=K['at_nowrap'])
+    exe = build.compile_objs_driver(drv, [IPA, PA, SLC, KU, KD, 'src/libawkward/Content.cpp', 'src/libawkward/array/UnionArray.cpp'])
+    r = subprocess.run([exe, str(mode), str(len(lens))] + [str(x) for x in lens] + [str(a), str(b), str(c)] + [str(x) for x in extra], capture_output=True, text=True, timeout=30,
                        env=dict(os.environ, ASAN_OPTIONS='detect_leaks=0', UBSAN_OPTIONS='halt_on_error=1:exitcode=87'), errors='replace')
     try:
         return json.loads(r.stdout.strip().splitlines()[-1]), r.stderr[-300:]
@@ -501,3 +520,115 @@ def range_jobs(tier):
             js.append((h_range, (l, s), 1800))
         js.append((h_getitem_at, (l,), 1800))
     return js
+
+
+# ---------------------------------------------------------------------------------------------- repartition
+@guard
+def h_repartition(lens, Q):
+    """IrregularlyPartitionedArray::repartition(stops) for symbolic new stops (Q partitions, non-decreasing, same total): new partition j holds exactly
+    the positions [stops[j-1], stops[j]) of the concatenation, in order (pieces of old partitions are cut with getitem_range_nowrap inside their bounds
+    and merged left to right); a different total raises"""
+    lens = list(lens)
+    P = len(lens)
+    from .mharness import module_of
+    K, nslots = content_slots()
+    stubs = range_stubs(K, module_of(IPA))
+    from .cpp01 import vtable_slots
+    slots, _ = vtable_slots(module_of(EA), 'N7awkward10EmptyArrayE')
+    k_mergeable = [k for s_, k in slots.items() if '9mergeableERKSt10shared_ptr' in s_][0]
+    k_mergemany = [k for s_, k in slots.items() if '9mergemanyERKSt6vector' in s_][0]
+    merges = []
+
+    def s_mergemany(eng, fr, ins, st, name, argv):
+        sret, selfp, vec = argv
+        o = st.mem.o[vec.obj]
+        b, e = o.cells[vec.off][0], o.cells[vec.off + 8][0]
+        from .llbmc import ptr_cases
+        qb = [q for g, q in ptr_cases(b) if q.obj is not None][0]
+        buf = st.mem.o[qb.obj]
+        other = buf.cells[qb.off][0] if hasattr(buf, 'cells') else buf.arr[0]
+        L1, g1 = _ld(eng, st, selfp, 8), _ld(eng, st, selfp, 16)
+        L2, g2 = _ld(eng, st, other, 8), _ld(eng, st, other, 16)
+        eng.add_obl('contract', st, g2 != g1 + L1, 'pieces merged into one partition are not adjacent in the concatenation', eng.where(fr, ins))
+        nm = eng.fresh_name('content')
+        p = eng.new_record(st.mem, nm, None, tag='content')
+        st.mem.o[nm].cells.update({0: (Ptr('fakevt', 0), 8), 8: (z3.simplify(L1 + L2), 8), 16: (g1, 8), 24: (BV(1), 8)})
+        rec = st.mem.o[sret.obj]
+        rec.cells[sret.off] = (p, 8); rec.cells[sret.off + 8] = (NULL, 8)
+        return None
+
+    def s_cmp(eng, fr, ins, st, name, argv):
+        # memcmp / bcmp of two int64 vectors with a concrete byte count
+        a, b, nb = argv
+        nb = z3.simplify(nb)
+        if not z3.is_bv_value(nb):
+            from .llbmc import Unsupported
+            raise Unsupported('memcmp with a symbolic length')
+        n = nb.as_long() // 8
+        oa, ob = st.mem.o[a.obj], st.mem.o[b.obj]
+        eq = z3.And([z3.Select(oa.arr, a.off + i) == z3.Select(ob.arr, b.off + i) for i in range(n)] + [z3.BoolVal(True)])
+        return z3.If(eq, z3.BitVecVal(0, 32), z3.BitVecVal(1, 32))
+    from . import nodeh
+    stubs.update({k_: v_ for k_, v_ in nodeh.COMMON_STUBS.items() if k_ not in stubs})
+    stubs.update({'__dynamic_cast': nodeh.s_dynamic_cast, '_ZNSt16allocator_traitsISaIvEE9constructIN7awkward27IrregularlyPartitionedArrayE*': nodeh.stub_noop,
+                  'vf$slot%d' % k_mergeable: (lambda *a: z3.BitVecVal(1, 1)), 'vf$slot%d' % k_mergemany: s_mergemany, 'memcmp': s_cmp, 'bcmp': s_cmp})
+    m = MCtx([IPA, PA, 'src/libawkward/Content.cpp'], unwind=P + Q + 6, stubs=stubs)
+    this, total = build_partitioned(m, lens, K, nslots)
+    ns = m.array('newstops', ('i', 64), Q, const=True)
+    a0 = z3.Array('newstops', z3.BitVecSort(64), z3.BitVecSort(64))
+    nv = [z3.Select(a0, BV(j)) for j in range(Q)]
+    prev = BV(0)
+    for v in nv:
+        m.assume(v >= prev, v <= 2 ** 20)
+        prev = v
+    vec = m.record('newstopsvec', {0: (ns, 8), 8: (Ptr('newstops', BV(Q)), 8), 16: (Ptr('newstops', BV(Q)), 8)}, const=True)
+    out = m.call('_ZNK7awkward27IrregularlyPartitionedArray11repartitionERKSt6vectorIlSaIlEE', [Ptr('ret', 0), this, vec])
+    same_total = nv[-1] == total
+    same = z3.And(Q == P, z3.And([nv[j] == sum(lens[:j + 1]) for j in range(min(P, Q))])) if Q == P else z3.BoolVal(False)
+    obls = [('raises exactly when the new stops describe a different total length', z3.simplify(out.raised) != z3.Not(same_total))]
+    pushes = [(pc, a[0]) for pc, nm, a in out.trace if nm == 'push_parts']
+    okp = z3.And(same_total, z3.Not(out.raised), z3.Not(same))
+    cnt = BV(0)
+    for j in range(Q):
+        # the j-th push on each path: group pushes by order of appearance per path is implicit in the guards; use cumulative count of pushes
+        pass
+    # pushes appear in path order; the k-th push that is live on a path is new partition k
+    for i, (pc, p) in enumerate(pushes):
+        L, g0, gs = _ld(m.eng, None, p, 8, out.mem), _ld(m.eng, None, p, 16, out.mem), _ld(m.eng, None, p, 24, out.mem)
+        before = BV(0)
+        for pc2, _ in pushes[:i]:
+            before = z3.If(pc2, before + 1, before)
+        for j in range(Q):
+            start_j = nv[j - 1] if j else BV(0)
+            obls.append(('new partition %d covers exactly [stops[%d-1], stops[%d]) of the concatenation' % (j, j, j),
+                         z3.And(okp, pc, before == j, z3.Or(g0 != start_j, L != nv[j] - start_j, gs != 1))))
+    total_pushes = BV(0)
+    for pc, _ in pushes:
+        total_pushes = z3.If(pc, total_pushes + 1, total_pushes)
+    obls.append(('one new partition per new stop', z3.And(okp, total_pushes != Q)))
+    def replay(model, ent):
+        sv = [model.eval(v, model_completion=True).as_signed_long() for v in nv]
+        res, log = native_partitioned(3, lens, 0, 0, 0, extra=sv)
+        payload = dict(partition_lengths=lens, new_stops=sv, native=res)
+        if sv[-1] != total:
+            if res.get('outcome') != 'raised':
+                return True, 'partition lengths %s repartitioned to stops %s (another total): native run %s' % (lens, sv, res), payload
+            return False, 'native run raises', payload
+        want = [[(sv[j - 1] if j else 0), sv[j] - (sv[j - 1] if j else 0)] for j in range(Q)]
+        if res.get('outcome') != 'ok':
+            return True, 'partition lengths %s repartitioned to stops %s: native run %s %s' % (lens, sv, res, log[-200:].replace('\n', ' ')), payload
+        got = res['parts']
+        # an empty partition stands for no positions: only its length matters
+        if len(got) != Q or any(g[1] != w[1] or (w[1] and g[0] != w[0]) for g, w in zip(got, want)):
+            return True, 'partition lengths %s repartitioned to stops %s: new partitions cover %s, expected %s ([start, length])' % (lens, sv, got, want), payload
+        return False, 'native run agrees (%s)' % got, payload
+    return mdischarge(m, 'IrregularlyPartitionedArray::repartition lens=%s Q=%d' % (','.join(map(str, lens)), Q), obls,
+                      [('a partition is cut', z3.And(okp, z3.Or([nv[j] != s_ for j in range(Q) for s_ in [sum(lens[:k + 1]) for k in range(P)]][:1] + [z3.BoolVal(False)])))], replay=replay,
+                      prefer=[v <= total + 2 for v in nv],
+                      extra=dict(bounds='old partition lengths %s concrete (case split), %d new stops symbolic' % (lens, Q)))
+
+
+def repartition_jobs(tier):
+    import itertools
+    shapes = [(2, 3), (1, 2, 1), (0, 2)] if tier == 'quick' else [l for P in (1, 2, 3) for l in itertools.product(range(4), repeat=P) if sum(l) > 0]
+    return [(h_repartition, (l, Q), 1800) for l in shapes for Q in ((1, 2, 3) if tier == 'quick' else (1, 2, 3, 4))]
